@@ -455,25 +455,26 @@ def extract_fn(repo, fnspec):
         body = '{\n' + top + body[1:]
     bottom = fnspec.get('bottom', '').rstrip()
     if bottom:
-        # insert before the tail expression: the last top-level statement boundary
+        # insert before the tail expression = after the last statement boundary at depth 1
         mb = mask(body)
-        k = len(body) - 1  # closing brace
-        # find start of the last line that is non-empty before the closing brace
-        j = body.rfind('\n', 0, k)
-        j2 = body.rfind('\n', 0, j)
-        while body[j2 + 1:j].strip() == '':
-            j = j2
-            j2 = body.rfind('\n', 0, j)
-        # tail expression may span several lines (struct literal): walk back to a line ending in ; or }
-        jj = j2
-        while True:
-            prev_end = jj
-            prev_start = body.rfind('\n', 0, prev_end)
-            prev = mb[prev_start + 1:prev_end].rstrip()
-            if prev == '' or prev.endswith(';') or prev.endswith('}') or prev.endswith('{'):
-                break
-            jj = prev_start
-        body = body[:jj + 1] + bottom + '\n' + body[jj + 1:]
+        depth = 0
+        boundary = 1  # just after the opening brace
+        end = len(mb) - 1  # closing brace of the fn body
+        k = 0
+        while k < end:
+            c = mb[k]
+            if c in '([{':
+                depth += 1
+            elif c in ')]}':
+                depth -= 1
+                if c == '}' and depth == 1:
+                    rest = mb[k + 1:end].lstrip()
+                    if rest and not rest.startswith(('.', '?', 'else', ')', ',', ';', 'as ')) and not re.match(r'[-+*/%&|^=<>]', rest):
+                        boundary = k + 1
+            elif c == ';' and depth == 1:
+                boundary = k + 1
+            k += 1
+        body = body[:boundary] + '\n' + bottom + '\n' + body[boundary:].lstrip('\n')
     # assemble
     parts = [sig2]
     for kind in ('requires', 'ensures'):
